@@ -123,6 +123,14 @@ def run(tier, seed, replay_case=None):
         items += core.run_sharded(eval_cases, seed, total, {'tier': tier})
         if nbig:
             items += core.run_sharded(eval_cases, seed + 5, nbig, {'tier': tier, 'big': True})
+        # a file of MANY lines (the task's progress branch at every 100000th line): very short
+        # lines, a few of them not valid UTF-8, lenient decoding; content alone must not fail it
+        many = (b'a\n' * 60000 + b'\xff x\n' + b'\n' * 39999 + b'b c\n' * 1000 + b'end')
+        items += core.run_sharded(eval_cases, seed + 9, 1, {'tier': tier, 'fixed': [{
+            'files': [{'name': 'f0.log', 'content': many.hex()}],
+            'defs': [{'type': 'simple', 'pats': [r'(b) (c)'], 'tag': 't1', 'store': True}],
+            'regs': [[0, 0]], 'decode_errors': 'replace'}]}, shards=1, workers=1)
+        rep.count('many_lines_files')
     drv = core.Driver()
     mruns = T.run_models([it['scn'] for it in items], drv)
     for it, mr in zip(items, mruns):
